@@ -181,6 +181,15 @@ Proof.
     apply repeat_spec in Hn; subst n; lia. }
   rewrite <- Hs in Hall. rewrite Forall_map in Hall. exact Hall.
 Qed.
+(* a pool no larger than the batch never hands a worker an empty piece *)
+Lemma split_nonempty (p : nat) (l : list A) :
+  1 <= p -> p <= length l -> Forall (fun c => c <> []) (split_n p l).
+Proof.
+  intros Hp Hl. pose proof (split_balanced p l Hp) as H.
+  assert (Hq : 1 <= length l / p) by (apply Nat.div_le_lower_bound; lia).
+  eapply Forall_impl; [|exact H]. intros c [Hc _].
+  destruct c; [cbn in Hc; lia|discriminate].
+Qed.
 End ChunkLemmas.
 
 Lemma concat_map_map {A B} (f : A -> B) (ll : list (list A)) :
